@@ -26,7 +26,8 @@ def params(draw, tier):
     p = {"mode": draw(st.sampled_from(["uniform", "jitter", "jitter", "square", "hex"])),
          "n": draw(st.integers(6, 300 if tier == "thorough" else 90)),
          "seed": draw(st.integers(0, 2 ** 32 - 1)),
-         "jitter": draw(st.sampled_from([0.0, 1e-6, 1e-3, 0.1, 0.3])),
+         # 1e-4..3e-4 spacings split the four-fold vertices of a lattice by about the rounding unit (0.001)
+         "jitter": draw(st.sampled_from([0.0, 1e-6, 1e-4, 2e-4, 3e-4, 1e-3, 0.1, 0.3])),
          "spacing": draw(st.sampled_from([5.0, 10.0, 50.0, 7.3])),
          "ring": draw(st.booleans()),
          "maxd": draw(st.sampled_from(["inf", "inf", "loose", "tight"])),
@@ -177,7 +178,7 @@ def check_case(p, ctx):
 
 
 def run(ctx):
-    drive(ctx, params(ctx.tier), check_case, ctx.budget(quick=140, thorough=400), label="centres")
+    drive(ctx, params(ctx.tier), check_case, ctx.budget(quick=450, thorough=1200), label="centres")
 
 
 CASES = {"centres": check_case}
